@@ -25,6 +25,8 @@ namespace mfuse
     mfuse_EXPORTS extern EventDef EV_Listener_ExecuteScript;
     mfuse_EXPORTS extern EventDef EV_Listener_WaitCreateReturnThread;
     mfuse_EXPORTS extern EventDef EV_Remove;
+    mfuse_EXPORTS extern EventDef EV_Delete;
+    mfuse_EXPORTS extern EventDef EV_ScriptRemove;
 
     using ListenerPtr = SafePtr<class Listener>;
 
